@@ -689,8 +689,12 @@ fn c10_zoom_block_bigendian() {
 #[kani::stub(alloc::fmt::format, crate::verif_support::fake_format)]
 #[kani::stub(SmallVec::push, crate::verif_support::smallvec_push_inline)]
 fn c03_cached_node_two_queries() {
-    let (c0, s0, e0): (u32, u32, u32) = (kani::any(), kani::any(), kani::any());
-    let (c1, s1, e1): (u32, u32, u32) = (kani::any(), kani::any(), kani::any());
+    cached_two_queries(false);
+}
+
+fn cached_two_queries(concrete_first: bool) {
+    let (c0, s0, e0): (u32, u32, u32) = if concrete_first { (0, 10, 20) } else { (kani::any(), kani::any(), kani::any()) };
+    let (c1, s1, e1): (u32, u32, u32) = if concrete_first { (0, 30, 40) } else { (kani::any(), kani::any(), kani::any()) };
     kani::assume(s0 <= e0 && s1 <= e1 && c0 <= 1 && c1 <= 1);
     let mut d: Vec<u8> = Vec::with_capacity(72);
     d.push(1); d.push(0); put16(&mut d, false, 2);
@@ -699,7 +703,7 @@ fn c03_cached_node_two_queries() {
     let mut rd = CachedBBIFileRead::new(crate::verif_support::LoopCursor::new(d));
     let hit = |q: u32, qs: u32, qe: u32, c: u32, s: u32, e: u32| key(q, qs) <= key(c, e) && key(q, qe) >= key(c, s);
     // first query
-    let (qa, qas, qae): (u32, u32, u32) = (kani::any(), kani::any(), kani::any());
+    let (qa, qas, qae): (u32, u32, u32) = if concrete_first { (0, 12, 15) } else { (kani::any(), kani::any(), kani::any()) };
     kani::assume(qa <= 1 && qas <= qae);
     let r1 = rd.blocks_for_cir_tree_node(Endianness::Little, 0, qa, qas, qae);
     let ok1 = match &r1 {
@@ -729,6 +733,27 @@ fn c03_cached_node_two_queries() {
     let c1c = hit(qa, qas, qae, c0, s0, e0) & !hit(qa, qas, qae, c1, s1, e1) & !g0 & g1;
     kani::cover!(c1c, "first query selects block 0 only, second block 1 only");
     core::mem::forget(rd);
+}
+
+// @harness c03_cached_node_concrete_first
+// @props C03 C04 C05
+// @tier quick
+// @kind core
+// @timeout 2400
+// @mem 24
+// @sub src/bbi/bbiread.rs ::: use bytes::{Buf, BytesMut}; ::: use crate::verif_support::bbuf::BytesMut; ||| src/bbi/bbiread.rs ::: use std::collections::hash_map::Entry; ::: use crate::verif_support::hmap::Entry; ||| src/bbi/bbiread.rs ::: use std::collections::{HashMap, VecDeque}; ::: use std::collections::VecDeque; use crate::verif_support::hmap::HashMap;
+// @functions bbiread::CachedBBIFileRead::blocks_for_cir_tree_node (vacant then occupied cache entry) over an in-memory file (LoopCursor); read_node, cir_tree_leaf_items, nodes_overlapping; std HashMap replaced by the association-list model verif_support::hmap, bytes::BytesMut by verif_support::bbuf
+// @bounds one independently encoded little-endian leaf node with 2 blocks (spans full width, chromosomes 0/1); block spans chr0:[10,20] and chr0:[30,40] and the FIRST query chr0:[12,15] concrete (selects the first block only), the second query arbitrary. Every size stays concrete even if the cache were to store a query-dependent subset, which makes this the robust twin of c03_cached_node_two_queries (that one ran out of memory, i.e. inconclusive, on seed C03-3: a symbolic-length cached vector is cloned)
+// @stubs SmallVec::push -> within inline capacity (asserted); alloc::fmt::format -> empty
+// @assumes std's HashMap behaves as a finite map (the model is not solver-checked against hashbrown: its SIMD probing does not finish symbolic execution)
+// @cut the block-data cache (get_block_data) and its 5000-entry reset; non-leaf nodes
+// @witness cover: the second query selects the second block only
+#[kani::proof]
+#[kani::unwind(12)]
+#[kani::stub(alloc::fmt::format, crate::verif_support::fake_format)]
+#[kani::stub(SmallVec::push, crate::verif_support::smallvec_push_inline)]
+fn c03_cached_node_concrete_first() {
+    cached_two_queries(true);
 }
 
 fn spin_a(n: u64) -> u64 { let mut i = 0; while i < n { i += 1; } i }
